@@ -46,6 +46,12 @@ SHAPES = ['uniform', 'convex']
 _BASE = {}
 
 
+def decoy():
+    from mc.lib import decoy as decoy_mod
+    decoy_mod.workflow()
+    decoy_mod.functions()
+
+
 def BOUND(tier):
     return ('all on-curve k x {repr, decimal} spellings x {rise, recession} '
             'x 7 grid steps x 2 datasets; off-grid (k+1/2), (k+1/4) for all '
